@@ -416,7 +416,7 @@ Proof.
     + intros _. right. right. left. reflexivity.
     + rewrite app_nil_r. reflexivity.
   - (* EStop *)
-    destruct (stop s) eqn:Est; [discriminate|]. inversion Hs; subst; clear Hs.
+    destruct (stop s) eqn:Est; [inversion Hs; subst; exact HI|]. inversion Hs; subst; clear Hs.
     destruct HI. constructor; simpl; auto.
     unfold snapshot_ok in *. simpl. destruct (pc s); auto. destruct inv_snap0 as [A [B C]]. auto.
   - (* TRead *)
